@@ -263,9 +263,18 @@ static long rt_syscall(long nr, void *addr, long op, long val) {
 }
 
 /* std::atomic<T>::wait / notify (via shadow bits/atomic_wait.h) */
+/* "another thread acts while this one is blocked": the harness arms a one-shot hook; a blocking wait that would otherwise never end first runs it
+   (e.g. the other thread completes the operation a generator body is waiting for) and then looks at the value again */
+typedef void rt_wait_fn(void);
+rt_wait_fn *rt_wait_f;
+void vf_wait_arm(rt_wait_fn *f) { rt_wait_f = f; }
+void vf_wait_done(void) { rt_wait_f = 0; }
+static uint64_t rt_wait_read(uint8_t *addr, uint32_t size) {
+  if (size == 1) return *(uint8_t*)addr; else if (size == 2) return *(uint16_t*)addr; else if (size == 4) return *(uint32_t*)addr; else return *(uint64_t*)addr;
+}
 void vf_atomic_wait(uint8_t *addr, uint64_t old, uint32_t size) {
-  uint64_t cur = 0;
-  if (size == 1) cur = *(uint8_t*)addr; else if (size == 2) cur = *(uint16_t*)addr; else if (size == 4) cur = *(uint32_t*)addr; else cur = *(uint64_t*)addr;
+  uint64_t cur = rt_wait_read(addr, size);
+  if (cur == old && rt_wait_f != 0) { rt_wait_fn *f = rt_wait_f; rt_wait_f = 0; f(); cur = rt_wait_read(addr, size); }
   __CPROVER_assert(cur != old, "rt: atomic wait would block forever (no other thread can change the value)");
   __CPROVER_assume(cur != old);
 }
